@@ -99,6 +99,11 @@ struct HVal
         check();
         return p ? *p : -1; // -1: moved-from
     }
+    // not required by the library; provided so that a change which starts comparing values
+    // still builds and is judged by what it does
+    friend bool operator==(const HVal& a, const HVal& b) { return a.get() == b.get(); }
+    friend bool operator!=(const HVal& a, const HVal& b) { return !(a == b); }
+    friend bool operator<(const HVal& a, const HVal& b) { return a.get() < b.get(); }
 };
 
 template<typename K>
